@@ -100,6 +100,8 @@ impl Owner {
 }
 
 struct Fail {
+    /// C05 also owns this failure (paragraph separation broke after a paragraph-level edit earlier in this epoch)
+    also_c05: bool,
     owner: Owner,
     clause: &'static str,
     op: String,
@@ -392,7 +394,7 @@ fn prestate_para(l: &Live, index: Option<usize>, text: &str) -> String {
     p.join("+")
 }
 
-fn run_session(c: &Case, obs: &mut Obs) -> Result<(), Fail> {
+fn run_session(c: &Case, obs: &mut Obs, para_epoch: &mut bool) -> Result<(), Fail> {
     probe::at("init");
     let mut l = match init_live(&c.init) {
         Ok(l) => l,
@@ -408,12 +410,12 @@ fn run_session(c: &Case, obs: &mut Obs) -> Result<(), Fail> {
     let mut aliased = false;
     // the initial state must already satisfy the model (by construction for Parse; Build checks FromIterator)
     if let Err((cl, d)) = check_model(&l) {
-        return Err(Fail { owner: Owner::C04, clause: cl, op: "init".into(), pre: "built".into(), detail: d });
+        return Err(Fail { also_c05: false, owner: Owner::C04, clause: cl, op: "init".into(), pre: "built".into(), detail: d });
     }
     if l.built {
         let t = l.doc.to_string();
         if let Err((cl, d)) = check_reread(&l, &t) {
-            return Err(Fail { owner: Owner::C05, clause: cl, op: "from_iter".into(), pre: "built".into(), detail: d });
+            return Err(Fail { also_c05: false, owner: Owner::C05, clause: cl, op: "from_iter".into(), pre: "built".into(), detail: d });
         }
     }
     for (seq, ev) in c.events.iter().enumerate() {
@@ -436,6 +438,7 @@ fn run_session(c: &Case, obs: &mut Obs) -> Result<(), Fail> {
                     (None, None) => {}
                     (g, m) => {
                         return Err(Fail {
+                            also_c05: false,
                             owner: last_owner,
                             clause: "model-content",
                             op: last_op.clone(),
@@ -461,6 +464,7 @@ fn run_session(c: &Case, obs: &mut Obs) -> Result<(), Fail> {
                     let got_contains = h.node.contains_key(name);
                     if got_get != want_get || got_all != want_all || got_keys != want_keys || got_contains != want_get.is_some() {
                         return Err(Fail {
+                            also_c05: false,
                             owner: last_owner,
                             clause: "observe",
                             op: last_op.clone(),
@@ -528,7 +532,7 @@ fn run_session(c: &Case, obs: &mut Obs) -> Result<(), Fail> {
                         let r = h.node.rename(old, new);
                         let mr = l.model.rename(para, old, new);
                         if r != mr {
-                            return Err(Fail { owner: Owner::C04, clause: "model-content", op: kind.into(), pre, detail: format!("rename({old},{new}) returned {r}, list model says {mr}") });
+                            return Err(Fail { also_c05: false, owner: Owner::C04, clause: "model-content", op: kind.into(), pre, detail: format!("rename({old},{new}) returned {r}, list model says {mr}") });
                         }
                         fop_owned = match val {
                             Some(v) => (0, old.clone(), new.clone(), v),
@@ -540,11 +544,11 @@ fn run_session(c: &Case, obs: &mut Obs) -> Result<(), Fail> {
                 let after = l.doc.to_string();
                 obs.event(&after);
                 if let Err((cl, d)) = check_model(&l) {
-                    return Err(Fail { owner: Owner::C04, clause: cl, op: kind.into(), pre, detail: format!("after {ev:?} on {:?}: {d}", before) });
+                    return Err(Fail { also_c05: false, owner: Owner::C04, clause: cl, op: kind.into(), pre, detail: format!("after {ev:?} on {:?}: {d}", before) });
                 }
                 if !attached {
                     if after != before {
-                        return Err(Fail { owner: Owner::C04, clause: "locality", op: kind.into(), pre, detail: format!("edit through a handle to a removed paragraph changed the document: {:?} -> {:?}", before, after) });
+                        return Err(Fail { also_c05: false, owner: Owner::C04, clause: "locality", op: kind.into(), pre, detail: format!("edit through a handle to a removed paragraph changed the document: {:?} -> {:?}", before, after) });
                     }
                 } else {
                     let ord_after = l.model.text_ordinal(para);
@@ -555,17 +559,18 @@ fn run_session(c: &Case, obs: &mut Obs) -> Result<(), Fail> {
                         _ => FieldOp::Nothing,
                     };
                     if let Err(d) = locality_field(&before, &after, ord_before, ord_after, &fop, obs) {
-                        return Err(Fail { owner: Owner::C04, clause: "locality", op: kind.into(), pre, detail: format!("{ev:?}: {d}; before {:?} after {:?}", before, after) });
+                        return Err(Fail { also_c05: false, owner: Owner::C04, clause: "locality", op: kind.into(), pre, detail: format!("{ev:?}: {d}; before {:?} after {:?}", before, after) });
                     }
                 }
                 if let Err((cl, d)) = check_reread(&l, &after) {
-                    return Err(Fail { owner: Owner::C04, clause: cl, op: kind.into(), pre, detail: format!("after {ev:?} on {:?}: {d}", before) });
+                    return Err(Fail { also_c05: false, owner: Owner::C04, clause: cl, op: kind.into(), pre, detail: format!("after {ev:?} on {:?}: {d}", before) });
                 }
             }
             Ev::AddPara { client, out } | Ev::InsertPara { client, out, .. } => {
                 let index = if let Ev::InsertPara { index, .. } = ev { Some(*index) } else { None };
                 let pre = prestate_para(&l, index, &before);
                 obs.prestate = pre.clone();
+                *para_epoch = true;
                 last_owner = Owner::C05;
                 last_op = kind.to_string();
                 last_pre = pre.clone();
@@ -584,18 +589,19 @@ fn run_session(c: &Case, obs: &mut Obs) -> Result<(), Fail> {
                 let after = l.doc.to_string();
                 obs.event(&after);
                 if let Err((cl, d)) = check_model(&l) {
-                    return Err(Fail { owner: Owner::C05, clause: cl, op: kind.into(), pre, detail: format!("after {ev:?} on {:?}: {d}", before) });
+                    return Err(Fail { also_c05: false, owner: Owner::C05, clause: cl, op: kind.into(), pre, detail: format!("after {ev:?} on {:?}: {d}", before) });
                 }
                 if let Err(d) = locality_para(&before, &after, false, None, obs) {
-                    return Err(Fail { owner: Owner::C05, clause: "locality", op: kind.into(), pre, detail: format!("{ev:?}: {d}; before {:?} after {:?}", before, after) });
+                    return Err(Fail { also_c05: false, owner: Owner::C05, clause: "locality", op: kind.into(), pre, detail: format!("{ev:?}: {d}; before {:?} after {:?}", before, after) });
                 }
                 if let Err((cl, d)) = check_reread(&l, &after) {
-                    return Err(Fail { owner: Owner::C05, clause: cl, op: kind.into(), pre, detail: format!("after {ev:?} on {:?}: {d}", before) });
+                    return Err(Fail { also_c05: false, owner: Owner::C05, clause: cl, op: kind.into(), pre, detail: format!("after {ev:?} on {:?}: {d}", before) });
                 }
             }
             Ev::RemovePara { index } => {
                 let pre = prestate_para(&l, Some(*index), &before);
                 obs.prestate = pre.clone();
+                *para_epoch = true;
                 last_owner = Owner::C05;
                 last_op = kind.to_string();
                 last_pre = pre.clone();
@@ -616,13 +622,13 @@ fn run_session(c: &Case, obs: &mut Obs) -> Result<(), Fail> {
                 let after = l.doc.to_string();
                 obs.event(&after);
                 if let Err((cl, d)) = check_model(&l) {
-                    return Err(Fail { owner: Owner::C05, clause: cl, op: kind.into(), pre, detail: format!("after {ev:?} on {:?}: {d}", before) });
+                    return Err(Fail { also_c05: false, owner: Owner::C05, clause: cl, op: kind.into(), pre, detail: format!("after {ev:?} on {:?}: {d}", before) });
                 }
                 if let Err(d) = locality_para(&before, &after, removed_existing, removed_ord, obs) {
-                    return Err(Fail { owner: Owner::C05, clause: "locality", op: kind.into(), pre, detail: format!("{ev:?}: {d}; before {:?} after {:?}", before, after) });
+                    return Err(Fail { also_c05: false, owner: Owner::C05, clause: "locality", op: kind.into(), pre, detail: format!("{ev:?}: {d}; before {:?} after {:?}", before, after) });
                 }
                 if let Err((cl, d)) = check_reread(&l, &after) {
-                    return Err(Fail { owner: Owner::C05, clause: cl, op: kind.into(), pre, detail: format!("after {ev:?} on {:?}: {d}", before) });
+                    return Err(Fail { also_c05: false, owner: Owner::C05, clause: cl, op: kind.into(), pre, detail: format!("after {ev:?} on {:?}: {d}", before) });
                 }
             }
             Ev::Restart { plan } => {
@@ -634,20 +640,21 @@ fn run_session(c: &Case, obs: &mut Obs) -> Result<(), Fail> {
                 obs.io(&r.fired);
                 match res {
                     Err(e) => {
-                        return Err(Fail { owner: last_owner, clause: "restart-error", op: last_op.clone(), pre: last_pre.clone(), detail: format!("restart: persisted text {:?} does not load: {}", before, e.to_string().trim()) });
+                        return Err(Fail { also_c05: false, owner: last_owner, clause: "restart-error", op: last_op.clone(), pre: last_pre.clone(), detail: format!("restart: persisted text {:?} does not load: {}", before, e.to_string().trim()) });
                     }
                     Ok(d) => {
                         l.model = l.model.restart();
+                        *para_epoch = false;
                         l.doc = d;
                         l.handles.clear();
                         l.built = false;
                         aliased = true;
                         if let Err((cl, d)) = check_model(&l) {
                             let cl = if cl == "model-content" { "restart-content" } else { cl };
-                            return Err(Fail { owner: last_owner, clause: cl, op: last_op.clone(), pre: last_pre.clone(), detail: format!("after restart from {:?}: {d}", before) });
+                            return Err(Fail { also_c05: false, owner: last_owner, clause: cl, op: last_op.clone(), pre: last_pre.clone(), detail: format!("after restart from {:?}: {d}", before) });
                         }
                         if l.doc.to_string() != before {
-                            return Err(Fail { owner: last_owner, clause: "restart-content", op: last_op.clone(), pre: last_pre.clone(), detail: format!("reloaded document prints {:?}, persisted text was {:?}", l.doc.to_string(), before) });
+                            return Err(Fail { also_c05: false, owner: last_owner, clause: "restart-content", op: last_op.clone(), pre: last_pre.clone(), detail: format!("reloaded document prints {:?}, persisted text was {:?}", l.doc.to_string(), before) });
                         }
                     }
                 }
@@ -910,7 +917,8 @@ fn to_violation(f: Fail) -> Violation {
 }
 
 fn execute_for(me: &'static str, c: &Case, obs: &mut Obs) -> Result<(), Violation> {
-    let r = std::panic::catch_unwind(std::panic::AssertUnwindSafe(|| run_session(c, obs)));
+    let mut para_epoch = false;
+    let r = std::panic::catch_unwind(std::panic::AssertUnwindSafe(|| run_session(c, obs, &mut para_epoch)));
     let r = match r {
         Ok(r) => r,
         Err(payload) => {
@@ -926,7 +934,15 @@ fn execute_for(me: &'static str, c: &Case, obs: &mut Obs) -> Result<(), Violatio
     };
     match r {
         Ok(()) => Ok(()),
-        Err(f) => {
+        Err(mut f) => {
+            // paragraph separation is C05's statement: when the printed text stops re-reading to the
+            // same paragraphs after a field edit that follows a paragraph-level edit in the same epoch
+            // (typically the first field put into a freshly added paragraph), C05 owns the failure too
+            if me == "C05" && f.owner == Owner::C04 && para_epoch && matches!(f.clause, "restart-paragraphs" | "restart-content" | "restart-error" | "locality") {
+                f.owner = Owner::C05;
+                f.also_c05 = true;
+                f.op = format!("{}-after-paragraph-edit", f.op);
+            }
             if f.owner.id() == me {
                 Err(to_violation(f))
             } else {
